@@ -90,11 +90,11 @@ add("C26", "mutation fuzzing of the viewer CLI in-process with drawn display opt
 add("C15", "generated video formats near every base format x all alternative header encodings; validator decode equality",
     "Exploration: formats perturbed from each base video format (and real levels built from the level table) x up to 40 headers from "
     "iter_sequence_headers each; every header must be accepted under the level and decode to the configured parameters.",
-    "Real-level configurations are constructed from the level table; levels 64/65 conflict is a listed known finding.", ready=False)
+    "Real-level configurations are constructed from the level table; levels 64/65 conflict is a listed known finding.", ready=True)
 add("C16", "generated synthetic level tables + ordering patterns substituted in-process; encoder-or-error vs validator",
     "Exploration: synthetic single-column level tables restricting encoder-owned choices and encoder-checked keys with ordering patterns; "
     "make_sequence either raises UnsatisfiableCodecFeaturesError or the stream validates under the same tables.",
-    "Caller-owned unchecked keys are explored in a diagnostic stratum only (documented contract).", ready=False)
+    "Caller-owned unchecked keys are explored in a diagnostic stratum only (documented contract).", ready=True)
 add("C17", "stateful model-based testing (ValueSet op sequences) + generated tables/CSV vs set models",
     "Exploration: rule-based machines over value sets vs Python sets; random tables vs a brute-force allowed-combination model; CSV text rendered from a table model and read back.",
     "No inverted ranges / negative CSV numbers (outside documented format); tables without catch-all columns for the equivalences.", ready=True)
